@@ -4,13 +4,15 @@ C07  functions: every small n, every compiled builder instantiation, sizes at th
      regime switches, hints absent / exact / too small / too large, knobs
 C08  filters: no false negatives, len, hash_bits, false-positive acceptance rule
 C17  duplicates and injected I/O / rewind faults (TLC-enumerated scenarios + recipes)
+C16  build-time and query-time edges agree: sharded functions / filters answered through every
+     query path (aligned and unaligned getters), hints across a sharding threshold
 C11  mem_size against the documented bound, C12 never-inserted keys and empty
      structures, C15 the three reload paths."""
 import gen_vbuild as g
 
 FAMILY = "vbuild"
 TRACE_SPEC = "Trace_VBuild"
-PROPS = ["C07", "C08", "C17", "C11", "C12", "C15"]
+PROPS = ["C07", "C08", "C17", "C11", "C12", "C15", "C16"]
 
 LOOP_ACTIONS = ["MC_VBuild." + a for a in (
     "ApplyHint", "BeginAttempt", "ReadKeyOk", "ReadKeyIoError", "ReadValOk", "ReadValIoError", "EndOfKeys",
@@ -89,9 +91,15 @@ def episodes(prop, tier, seed):
         out["coarse-sig-dups"] = (g.c17_coarse_sig_dups(seed + 9), "verif")
         out["heavy-dups"] = (g.c17_heavy_dups(seed + 8, copies=(2000,) if q else (600, 2000, 30000)), "verif")
         out["line-faults"] = (g.c17_line_faults(seed + 7, thin=q), "verif")
+        out["retry-faults"] = (g.c17_retry_faults(seed + 10, thin=q), "verif")
         if not q:
             out["faults-release"] = (g.c17_faults(seed + 3, nmax=12, stride=2), "release")
             out["dups-release"] = (g.c17_duplicates(seed + 4, big=10000, thin=True), "release")
+    if prop == "C16":
+        # the same edge at build and at query time, in every shard and through every getter
+        out["sharded"] = (g.sharded_logics(seed + 11, "func", sizes=(100000,) if q else (100000, 199999, 400000)), "verif")
+        out["sharded-filters"] = (g.sharded_logics(seed + 12, "filter", sizes=(100000,) if q else (100000, 400000)), "verif")
+        out["threshold-hints"] = (g.threshold_hints(seed + 13, thin=q), "verif")
     if prop == "C11":
         out["space"] = (g.c11_episodes(seed, thorough=not q), "verif")
     if prop == "C12":
